@@ -91,7 +91,8 @@ def san_key(report):
         if '/repo/' in loc or (REPO.rstrip('/') + '/') in loc or '/verif/' in loc or '.work' in loc:
             if fn.startswith('__interceptor') or fn.startswith('__asan'):
                 continue
-            funcs.append(fn)
+            # functions of generated programs carry the program / class name: normalise so that keys are stable across programs
+            funcs.append(re.sub(r'_of_[a-z]+\d+(?:_\d+)?_\w+$', '_of_<generated>', fn))
         if len(funcs) >= 2:
             break
     return 'asan:%s:%s' % (kind, '<'.join(funcs) if funcs else '?')
